@@ -2,11 +2,21 @@
 import anytree
 
 
-def make_class(sep, pathattr):
-    """Node class with a class-level separator; pathattr 'name' -> Node, otherwise AnyNode carrying that attribute."""
+class ReprBoomError(Exception):
+    pass
+
+
+def _boom(self):
+    raise ReprBoomError("the text of a node was asked for")
+
+
+def make_class(sep, pathattr, unreprable=False):
+    """Node class with a class-level separator; pathattr 'name' -> Node, otherwise AnyNode carrying that attribute.
+    unreprable: repr()/str() of the nodes raise (their data refers back to them, say) - resolving a path never needs them."""
+    extra = {"__repr__": _boom, "__str__": _boom} if unreprable else {}
     if pathattr == "name":
-        return type("SepNode", (anytree.Node,), {"separator": sep})
-    return type("SepAnyNode", (anytree.AnyNode,), {"separator": sep})
+        return type("SepNode", (anytree.Node,), dict(extra, separator=sep))
+    return type("SepAnyNode", (anytree.AnyNode,), dict(extra, separator=sep))
 
 
 class TaggedName(str):
@@ -23,7 +33,11 @@ class TaggedName(str):
 def name_object(name):
     """Case description of a name -> the object stored on the node."""
     if isinstance(name, dict):
-        return name["int"] if "int" in name else TaggedName(name["tag"])
+        if "int" in name:
+            return name["int"]
+        if "tup" in name:
+            return tuple(name["tup"])
+        return TaggedName(name["tag"])
     return name
 
 
@@ -36,7 +50,7 @@ def build(case):
     """Build the tree of a resolver case: returns nodes in pre-order."""
     from . import shapes
 
-    cls = make_class(case["sep"], case["pathattr"])
+    cls = make_class(case["sep"], case["pathattr"], bool(case.get("unreprable")))
     parents = shapes.shape_to_parents(_to_tuple(case["shape"]))
     nodes = []
     for idx, parent in enumerate(parents):
